@@ -304,9 +304,23 @@ impl<'a> Cx<'a> {
 
     /// arity rule, its error text, and the token index of that literal
     fn arity(&self, b: (usize, usize)) -> (String, Option<String>, Option<usize>) {
-        let (s, e) = b;
+        let (mut s, e) = b;
         let off = self.first as i64;
         let t = self.t;
+        // leading macro statements (`tracing::debug!("…");`, `debug_assert!(…);`) are not part of the grammar
+        loop {
+            let mut j = s;
+            while j + 2 < e && matches!(&t[j], Tk::Id(_)) && is_p(&t[j + 1], "::") { j += 2; }
+            if j + 2 < e && matches!(&t[j], Tk::Id(_)) && is_p(&t[j + 1], "!") && (is_p(&t[j + 2], "(") || is_p(&t[j + 2], "[") || is_p(&t[j + 2], "{")) {
+                if let Some(c) = close_of(t, j + 2) {
+                    let mut k = c + 1;
+                    if k < e && is_p(&t[k], ";") { k += 1; }
+                    s = k;
+                    continue;
+                }
+            }
+            break;
+        }
         if s >= e { return ("any".into(), None, None); }
         // A: `if COND { return Err("text"…`
         if is_id(&t[s], "if") {
@@ -622,8 +636,11 @@ fn describe(cx: &Cx, name: &str, body: (usize, usize)) -> Row {
                     if kind == "int" && xs >= 3 {
                         if let Some((_, c)) = cx.at(xs - 3, "let $i =") {
                             let stmt_end = (xe..be).find(|j| is_p(&t[*j], ";")).unwrap_or(be);
-                            if let Some((_, c2, ix)) = m_at_ix(t, stmt_end + 1, &format!("if {} < 1 {{ return Err ( $s", c[0]), cx.arr) {
-                                if c2[0] == "ERR syntax error" { kind = "pos".into(); attributed.insert(ix[0]); }
+                            for guard in [format!("if {} < 1 {{ return Err ( $s", c[0]), format!("if {} <= 0 {{ return Err ( $s", c[0]), format!("if 1 > {} {{ return Err ( $s", c[0]), format!("if ! ( {} >= 1 ) {{ return Err ( $s", c[0])] {
+                                if let Some((_, c2, ix)) = m_at_ix(t, stmt_end + 1, &guard, cx.arr) {
+                                    if c2[0] == "ERR syntax error" { kind = "pos".into(); attributed.insert(ix[0]); }
+                                    break;
+                                }
                             }
                         }
                     }
@@ -1597,4 +1614,111 @@ end RedisVerif.C16.SrcGen
         d_resp = d_resp, d_zc = d_zc, d_lua = d_lua,
         n_resp = n_resp, n_zc = n_zc, n_lua = n_lua);
     (text, unread)
+}
+
+// ---------------------------------------------------------------------------------------------
+// the MODULE TREE of an anchored file (session 4, harmless round 2)
+// ---------------------------------------------------------------------------------------------
+
+/// The source text of a module together with the child modules it declares out of line: `foo.rs` (or
+/// `foo/mod.rs`) plus, for every `mod x;` at its top level (any visibility, `#[path = "…"]` honoured, a
+/// `#[cfg(test)]` module left out), `foo/x.rs` or `foo/x/mod.rs` — recursively.  The scans read `text` (the
+/// files one after the other): an item moved into a child module, an `impl` block split over several
+/// files, a private item that became `pub(super)` are read as the same items.
+pub struct ModTree {
+    pub text: String,
+    /// the files read, relative to the repository (the root file first)
+    pub files: Vec<String>,
+    /// `mod x;` declarations whose file was not found
+    pub missing: Vec<String>,
+    /// every `pub` / `pub(…)` fn of the tree: (file, visibility, name)
+    pub pub_fns: Vec<(String, String, String)>,
+}
+
+pub fn module_tree(repo: &str, rel: &str) -> ModTree {
+    let mut mt = ModTree { text: String::new(), files: vec![], missing: vec![], pub_fns: vec![] };
+    fn dir_of(rel: &str) -> String {
+        let p = std::path::Path::new(rel);
+        let parent = p.parent().map(|x| x.to_string_lossy().to_string()).unwrap_or_default();
+        let stem = p.file_stem().map(|x| x.to_string_lossy().to_string()).unwrap_or_default();
+        if stem == "mod" || stem == "lib" || stem == "main" { parent } else if parent.is_empty() { stem } else { format!("{}/{}", parent, stem) }
+    }
+    fn walk(repo: &str, rel: &str, depth: usize, mt: &mut ModTree) {
+        if depth > 8 || mt.files.iter().any(|f| f == rel) { return; }
+        let src = match std::fs::read_to_string(format!("{}/{}", repo, rel)) { Ok(s) => s, Err(_) => { if depth == 0 { mt.missing.push(rel.to_string()); } return; } };
+        mt.files.push(rel.to_string());
+        mt.text.push_str(&src);
+        mt.text.push('\n');
+        let t = lex(&src);
+        // `pub [ ( … ) ] [const|async|unsafe]* fn NAME`, at any depth (methods of impl blocks)
+        let mut i = 0;
+        while i < t.len() {
+            if is_id(&t[i], "pub") {
+                let mut j = i + 1;
+                let mut vis = "pub".to_string();
+                if j < t.len() && is_p(&t[j], "(") {
+                    if let Some(c) = close_of(&t, j) { vis = format!("pub({})", tk_text(&t[j + 1..c]).replace(' ', "")); j = c + 1; }
+                }
+                while j < t.len() && (is_id(&t[j], "const") || is_id(&t[j], "async") || is_id(&t[j], "unsafe")) { j += 1; }
+                if j + 1 < t.len() && is_id(&t[j], "fn") {
+                    if let Tk::Id(n) = &t[j + 1] { mt.pub_fns.push((rel.to_string(), vis, n.clone())); }
+                }
+            }
+            i += 1;
+        }
+        // `mod NAME ;` at brace depth 0
+        let dir = dir_of(rel);
+        let mut d = 0i32;
+        let mut children: Vec<String> = Vec::new();
+        for i in 0..t.len() {
+            match &t[i] {
+                Tk::P(x) if x == "{" => d += 1,
+                Tk::P(x) if x == "}" => d -= 1,
+                Tk::Id(m) if m == "mod" && d == 0 && i + 2 < t.len() && is_p(&t[i + 2], ";") => {
+                    let name = match &t[i + 1] { Tk::Id(n) => n.clone(), _ => continue };
+                    // the attributes in front of the item: `# [ … ]` groups (and the visibility) directly before `mod`
+                    let mut k = i;
+                    let mut cfg_test = false;
+                    let mut path_attr: Option<String> = None;
+                    loop {
+                        // step back over `pub` / `pub ( … )`
+                        if k >= 1 && is_id(&t[k - 1], "pub") { k -= 1; continue; }
+                        if k >= 1 && is_p(&t[k - 1], ")") {
+                            if let Some(o) = (0..k - 1).rev().find(|o| is_p(&t[*o], "(") && close_of(&t, *o) == Some(k - 1)) {
+                                if o >= 1 && is_id(&t[o - 1], "pub") { k = o - 1; continue; }
+                            }
+                            break;
+                        }
+                        if k >= 1 && is_p(&t[k - 1], "]") {
+                            if let Some(o) = (0..k - 1).rev().find(|o| is_p(&t[*o], "[") && close_of(&t, *o) == Some(k - 1)) {
+                                if o >= 1 && is_p(&t[o - 1], "#") {
+                                    let inner = tk_text(&t[o + 1..k - 1]);
+                                    if inner.starts_with("cfg") && inner.contains("test") && !inner.contains("not") { cfg_test = true; }
+                                    if inner.starts_with("path") { if let Some(Tk::Str(p)) = t[o + 1..k - 1].iter().find(|x| matches!(x, Tk::Str(_))) { path_attr = Some(p.clone()); } }
+                                    k = o - 1;
+                                    continue;
+                                }
+                            }
+                            break;
+                        }
+                        break;
+                    }
+                    if cfg_test { continue; }
+                    let parent = std::path::Path::new(rel).parent().map(|x| x.to_string_lossy().to_string()).unwrap_or_default();
+                    let cands: Vec<String> = match path_attr {
+                        Some(p) => vec![if parent.is_empty() { p } else { format!("{}/{}", parent, p) }],
+                        None => vec![format!("{}/{}.rs", dir, name), format!("{}/{}/mod.rs", dir, name)],
+                    };
+                    match cands.iter().find(|c| std::path::Path::new(&format!("{}/{}", repo, c)).is_file()) {
+                        Some(c) => children.push(c.clone()),
+                        None => mt.missing.push(format!("{}: mod {};", rel, name)),
+                    }
+                }
+                _ => {}
+            }
+        }
+        for c in children { walk(repo, &c, depth + 1, mt); }
+    }
+    walk(repo, rel, 0, &mut mt);
+    mt
 }
